@@ -19,6 +19,7 @@ import contextlib
 import io
 import os
 import shutil
+import sys
 import tempfile
 import traceback
 
@@ -1068,9 +1069,92 @@ def case_rt_large(ctx, gtype, fmt, rseed):
                 judge_roundtrip(ctx, desc, gtype, fmt, channel, stage, st, val, text=text, fmts=fmts)
 
 
+LOCALE_SCRIPT = r"""
+import json, os, sys, random
+sys.path.insert(0, sys.argv[1])
+import warnings; warnings.simplefilter("ignore")
+from cnfgen.graphs import Graph, DirectedGraph, BipartiteGraph, readGraph, writeGraph, has_dot_library
+tmp, seed = sys.argv[2], int(sys.argv[3])
+r = random.Random(seed)
+names = ["plain", "caf\u00e9 graph", "\u0433\u0440\u0430\u0444", "\u56fe 7", "na\u00efve \u2014 dash", "\u00fc"]
+out = []
+for gtype, fmts in (("simple", ["kthlist", "gml", "dimacs", "dot"]), ("dag", ["kthlist", "gml", "dimacs", "dot"]),
+                    ("digraph", ["kthlist", "gml", "dimacs", "dot"]), ("bipartite", ["kthlist", "gml", "matrix", "dot"])):
+    for fmt in fmts:
+        if fmt == "dot" and not has_dot_library():
+            continue
+        for name in names:
+            if gtype == "simple":
+                G = Graph(5, name=name); E = [(1, 2), (2, 3), (1, 5)]
+            elif gtype == "bipartite":
+                G = BipartiteGraph(3, 4, name=name); E = [(1, 1), (2, 4), (3, 2), (1, 3)]
+            else:
+                G = DirectedGraph(5, name=name); E = [(1, 2), (2, 3), (1, 5), (4, 5)]
+            for e in E:
+                G.add_edge(*e)
+            path = os.path.join(tmp, "g%d.%s" % (len(out), fmt))
+            rec = {"gtype": gtype, "fmt": fmt, "name": name, "how": "path"}
+            try:
+                writeGraph(G, path, gtype, fmt)
+                H = readGraph(path, gtype, fmt)
+                rec["status"] = "ok"
+                rec["edges_equal"] = sorted(map(tuple, H.edges())) == sorted(E)
+                rec["vertices_equal"] = H.number_of_vertices() == G.number_of_vertices()
+            except Exception as e:
+                rec["status"] = "exc"
+                rec["exc"] = type(e).__name__ + ": " + str(e)[:200]
+            out.append(rec)
+sys.stdout.write(json.dumps(out))
+"""
+
+
+def case_locale(ctx, rseed):
+    """Named files written and read back by an interpreter whose default text encoding is not UTF-8 (LC_ALL=C,
+    UTF-8 mode off), for graphs whose names are not ASCII: the same graphs must come back as under UTF-8."""
+    import json
+    import subprocess
+    from .. import REPO
+    with Scratch() as scratch:
+        script = os.path.join(scratch.dir, "locale_roundtrip.py")
+        with open(script, "w", encoding="utf-8") as f:
+            f.write(LOCALE_SCRIPT)
+        tmpdir = os.path.dirname(script)
+        envs = {"utf8": dict(os.environ, PYTHONUTF8="1"),
+                "ascii": dict(os.environ, LC_ALL="C", LANG="C", PYTHONUTF8="0", PYTHONCOERCECLOCALE="0"),
+                "latin1": dict(os.environ, LC_ALL="C", LANG="C", PYTHONUTF8="0", PYTHONCOERCECLOCALE="0", PYTHONIOENCODING="latin-1")}
+        results = {}
+        for tag, env in envs.items():
+            env.pop("PYTHONPATH", None)
+            try:
+                p = subprocess.run([sys.executable, script, REPO, tmpdir, str(rseed)], env=env, capture_output=True, text=True, timeout=300)
+            except subprocess.TimeoutExpired:
+                ctx.problems.append({"kind": "spawn-failed", "case": ctx.case, "traceback": "locale script timed out"})
+                return
+            if p.returncode != 0:
+                ctx.problems.append({"kind": "harness-error", "case": ctx.case, "traceback": "locale script (%s) failed: %s" % (tag, p.stderr[-600:])})
+                return
+            results[tag] = json.loads(p.stdout)
+            ctx.count("locale_processes")
+        for tag in ("ascii", "latin1"):
+            for rec in results[tag]:
+                ctx.count("locale_roundtrips")
+                where = "writeGraph/readGraph by file name, %s %s, graph named %r, interpreter with %s default encoding" % (
+                    rec["gtype"], rec["fmt"], rec["name"], tag)
+                if rec["status"] != "ok":
+                    ctx.violation("roundtrip:%s:%s:locale:raises" % (rec["fmt"], rec["gtype"]), "%s: %s" % (where, rec["exc"]))
+                elif not (rec["edges_equal"] and rec["vertices_equal"]):
+                    ctx.violation("roundtrip:%s:%s:locale:graph-differs" % (rec["fmt"], rec["gtype"]), "%s: another graph came back" % where)
+                ctx.judged(("locale", tag, rec["gtype"], rec["fmt"], rec["name"]), nontrivial=not rec["name"].isascii(),
+                           sample={"gtype": rec["gtype"], "format": rec["fmt"], "name": rec["name"], "encoding": tag})
+        for rec in results["utf8"]:
+            if rec["status"] != "ok" or not (rec["edges_equal"] and rec["vertices_equal"]):
+                ctx.violation("roundtrip:%s:%s:path:non-ascii-name" % (rec["fmt"], rec["gtype"]), "under UTF-8: %r" % (rec,))
+
+
 def workload(tier, seed):
     quick = tier == "quick"
     TYPES = ("simple", "digraph", "dag", "bipartite")
+    yield "locale", {"rseed": seed}
     for gtype in TYPES:
         for fmt in {"simple": ["kthlist", "gml", "dimacs"], "digraph": ["kthlist", "gml", "dimacs"], "dag": ["kthlist", "gml", "dimacs"],
                     "bipartite": ["kthlist", "gml", "matrix"]}[gtype] + ([] if quick else ["dot"]):
